@@ -275,11 +275,13 @@ def parseEv (s : String) : Option Ev := do
          ct := ← nat 6, uw := ← nat 7, coll := ← nat 8, trans := ← nat 9, reord := ← nat 10,
          omaj := ← nat 11, omin := ← nat 12, next := ← nat 13 }
 
-def projOK (s : St) (e : Ev) : Bool :=
+/-- `next_id` is incremented by the reader OUTSIDE `sched_mutex`
+    (`on_input_avail`), so only the reader's own lines show it reliably. -/
+def projOK (s : St) (e : Ev) (checkNext : Bool := false) : Bool :=
   s.workUnits == e.wu && s.outSlots == e.os && (if s.eof then 1 else 0) == e.eof
     && (if s.collectToken then 1 else 0) == e.ct && (if s.unfinished.isSome then 1 else 0) == e.uw
     && s.collQ.length == e.coll && s.transQ.length == e.trans && s.reordQ.length == e.reord
-    && s.order.major == e.omaj && s.order.minor == e.omin && s.nextId == e.next
+    && s.order.major == e.omaj && s.order.minor == e.omin && (!checkNext || s.nextId == e.next)
 
 def taskName (t : Option Task) : String :=
   match t with
@@ -337,13 +339,25 @@ def toHead (c : Cfg) (a : Acc) (i : Nat) (future : List Ev) : Nat → Except Str
       | _ => toHead c a i future fuel
     | none => .error "no such worker"
 
+/-- `source_release_buffer` by workers is silent (source mutex only) and may
+    happen long before the worker's next trace line: apply the pending ones. -/
+def releaseAll (c : Cfg) (a : Acc) : Acc :=
+  (List.range c.n).foldl (fun (a : Acc) (i : Nat) =>
+    match a.s.ws[i]? with
+    | some (.c1 _) | some (.s1 _ (some _)) =>
+      match step c markerCodec a.s (.cont i 0) with
+      | some s' => if s'.collQ.length == a.s.collQ.length then { a with s := s' } else a
+      | none => a
+    | _ => a) a
+
 def acceptEv (c : Cfg) (rdT wrT : Nat) (a : Acc) (e : Ev) (future : List Ev) : Except String Acc := do
   if e.kind == 'U' && e.tid == rdT then
+    let a := if a.s.rd == .idle && a.s.inSlots == 0 then releaseAll c a else a
     let a ← if a.s.rd == .idle then stp c a .rTake else pure a
     let a ← if a.s.rd == .hold && a.s.input.isEmpty then stp c a .rEmpty else pure a
     let a ← if a.s.rd == .hold then stp c a (.rDeliver (chooseK a future))
             else stp c a (.rEof (chooseK a future))
-    if !projOK a.s e then throw "reader section: counters differ"
+    if !projOK a.s e true then throw "reader section: counters differ"
     if taskName a.s.nextTask != e.name then throw s!"next_task: model {taskName a.s.nextTask}"
     return a
   if e.kind == 'U' && e.tid == wrT then
